@@ -83,6 +83,22 @@ class Facts:
                 for i, b in enumerate(sorted(bs, key=lambda b: (b.file, b.line))):
                     b.key = "%s#%d" % (p, i)
         self.n_bodies = d["n_bodies"]
+        # helpers the reference tree does not have are inlined into their callers (see rules/astnorm.py)
+        self.inlined_sites = 0
+        if os.environ.get("VERIF_NO_ASTNORM") != "1":
+            kp = os.path.join(os.path.dirname(os.path.dirname(os.path.abspath(__file__))), "tables", "known_fns.json")
+            if os.path.exists(kp):
+                import astnorm
+                with open(kp) as f:
+                    known = set(json.load(f)["paths"])
+                try:
+                    self.inlined_sites = astnorm.inline_new_helpers(self, known)
+                    if self.inlined_sites:
+                        for b in self.bodies:
+                            if any(isinstance(x, dict) and x.get("inlined") for x in astnorm._walk(b.body)):
+                                b.body = astnorm.normalize_body(b.body)
+                except RecursionError:
+                    pass
 
     # ---- lookup
     def find(self, regex, dk=None, file=None):
